@@ -817,6 +817,14 @@ func (e *env) csvCorpus() {
 	bq := mk("corpus:bom-quoted-header", []string{"a,b", "time", "rid"}, [][]string{{"x", "1609459200", "1"}, {"y", "1609459201", "2"}}, "epoch_s", sp("epoch_s"), t2)
 	bq.bom = true
 	e.runCSV(bq)
+	ovm := mk("corpus:overflow-ms", h, [][]string{{"9223372036854776", "1", "5"}}, "epoch_ms", sp("epoch_ms"), t2[:1])
+	ovm.timeOvf[0] = true
+	e.runCSV(ovm)
+	e.runCSV(mk("corpus:frac-s-truncated", h, [][]string{{"1116774034.465000", "1", "5"}}, "epoch_s-frac", sp("epoch_s"), []int64{1116774034465000}))
+	e.runCSV(mk("corpus:frac-ms-truncated", h, [][]string{{"2227044859000.361", "1", "5"}}, "epoch_ms-frac", sp("epoch_ms"), []int64{2227044859000361}))
+	flt := mk("corpus:fault-second-hour", h, [][]string{{"1609459200", "1", "5"}, {"1609466400", "2", "6"}}, "epoch_s", sp("epoch_s"), []int64{1609459200000000, 1609466400000000})
+	flt.failAt = 1
+	e.runCSV(flt)
 	e.runCSV(mk("corpus:frac", h, [][]string{{"1609459200.123", "1", "5"}, {"1609459201.29", "2", "6"}}, "epoch_s-frac", sp("epoch_s"), []int64{1609459200123000, 1609459201290000}))
 }
 
